@@ -49,7 +49,8 @@ def decls_for(config):
 
 def make_cid(config, decls, type_name="VerifRec", check_type="VerifProto"):
     rows = harness.cid_rows(config["preset"], decls, [[name, check_type, rule] for name, rule in zip(protocol.check_names(len(config["checks"])), config["checks"])], config["header"],
-                            allowed=allowed_items(config) if config.get("allowed") else None, line_delimiter="lf", allowed_after_fields=bool(config.get("allowed_after")))
+                            allowed=allowed_items(config) if config.get("allowed") else None, line_delimiter="lf", allowed_after_fields=bool(config.get("allowed_after")),
+                            extra=[("Encoding", config["encoding"])] if config.get("encoding") else [])
     for row in rows:
         if row[0] == "F":
             row[5] = type_name
@@ -146,6 +147,8 @@ def representable(config, decls, table):
 def judge(case, part):
     from mc import recording
 
+    if "runs" not in case:  # replay of a plugin-folder scenario
+        return plugin_case(case, part)
     config = case["config"]
     decls = decls_for(config)
     tag = "%s|%%s" % config["preset"]
@@ -205,9 +208,12 @@ def judge(case, part):
 
 def row_pool(config, decls):
     cells = CELLS
+    if config.get("encoding"):
+        # characters that take several bytes in the declared encoding: lengths and widths count characters
+        cells = ["\xe4b", "", "\u20ac!", "\xe4bc\xfc", "b"]
     if config.get("allowed") == "noblank":
         # fixed cells that are blank-only while blanks are not allowed are not settled by the statement: leave them out
-        cells = [c for c in CELLS if c.strip(" ") != ""]
+        cells = [c for c in cells if c.strip(" ") != ""]
     pool = [list(t) for t in itertools.product(cells, repeat=len(decls))]
     if config["preset"] != "fixed":
         pool.append(["ab"] * (len(decls) + 1))
@@ -244,6 +250,8 @@ def configs(tier):
                         if allowed is True and header == 0 and len(checks) in (0, 2):
                             # the allowed-characters row declared behind the field rows: it applies all the same
                             result.append({"preset": preset, "header": header, "fields": fields, "checks": checks, "allowed": allowed, "allowed_after": True})
+    for preset in ("fixed", "delimited"):
+        result.append({"preset": preset, "header": 0, "fields": [(True, 4), (False, 2)], "checks": ["ok"], "allowed": False, "encoding": "utf-8"})
     return result
 
 
@@ -328,20 +336,34 @@ sys.path.insert(0, sys.argv[1])
 import logging; logging.disable(logging.CRITICAL)
 import cutplace
 from cutplace import interface, errors
-interface.import_plugins(sys.argv[2])
 spec = json.loads(sys.argv[3])
-plugin = sys.modules.get("verif_plugin")
-cid = interface.Cid()
-cid.read("cid.csv", spec["cid"])
-import importlib
-log_module = [m for name, m in sys.modules.items() if name == "verif_plugin"]
-try:
-    for _ in cutplace.rows(cid, io.StringIO(spec["data"], newline=""), on_error=spec["mode"]):
+if "cli" in spec:
+    # the command line front end: it imports the plugin folder itself and passes --until down
+    import csv, os
+    from cutplace import applications, fields
+    cid_path = os.path.join(os.path.dirname(sys.argv[2]), "plugin_cid.csv")
+    data_path = os.path.join(os.path.dirname(sys.argv[2]), "plugin_data.txt")
+    with open(cid_path, "w", newline="", encoding="utf-8") as stream:
+        csv.writer(stream).writerows(spec["cid"])
+    with open(data_path, "w", newline="", encoding="cp1252") as stream:
+        stream.write(spec["data"])
+    arguments = ["cutplace", "--plugins", sys.argv[2]] + (["--until", str(spec["cli"]["until"])] if spec["cli"]["until"] is not None else []) + [cid_path, data_path]
+    try:
+        applications.main(arguments)
+    except SystemExit:
         pass
-except errors.CutplaceError:
-    pass
+    field_class = [c for c in fields.AbstractFieldFormat.__subclasses__() if c.__name__ == "PluginRecFieldFormat"][-1]
+else:
+    interface.import_plugins(sys.argv[2])
+    cid = interface.Cid()
+    cid.read("cid.csv", spec["cid"])
+    try:
+        for _ in cutplace.rows(cid, io.StringIO(spec["data"], newline=""), on_error=spec["mode"]):
+            pass
+    except errors.CutplaceError:
+        pass
+    field_class = type(cid.field_formats[0])
 # the plugin module is not registered in sys.modules by import_plugins: find its LOG through the classes
-field_class = type(cid.field_formats[0])
 log = sys.modules[field_class.__module__].LOG if field_class.__module__ in sys.modules else field_class.validated_value.__globals__["LOG"]
 print("PLUGIN-LOG " + json.dumps(log))
 '''
@@ -352,12 +374,14 @@ def plugin_case(case, part):
 
     config = case["config"]
     decls = decls_for(config)
-    folder = os.path.join(readermachine.tmpdir(), "plugins")
+    folder = os.path.join(readermachine.tmpdir(), case.get("folder", "plugins"))
     os.makedirs(folder, exist_ok=True)
     with open(os.path.join(folder, "verif_plugin.py"), "w") as plugin_file:
         plugin_file.write(recording.PLUGIN_SOURCE)
     rows = make_cid(config, decls, "PluginRec", "PluginProto")
     spec = {"cid": rows, "data": data_text(config, decls, case["table"]), "mode": case["mode"]}
+    if "cli" in case:
+        spec["cli"] = case["cli"]
     done = subprocess.run([sys.executable, "-c", PLUGIN_DRIVER, repo.REPO, folder, json.dumps(spec)], capture_output=True, text=True, timeout=120)
     part.evaluations += 1
     part.transitions += 1
@@ -365,12 +389,12 @@ def plugin_case(case, part):
     part.nontrivial += 1
     marker = [line for line in done.stdout.splitlines() if line.startswith("PLUGIN-LOG ")]
     if not marker:
-        part.fail("plugin|classes-from-plugin-folder-not-usable", case, "call log", (done.stdout + done.stderr)[-600:])
+        part.fail("plugin|classes-from-plugin-folder-not-usable%s" % (":folder=" + case["folder"] if "folder" in case else ""), case, "call log", (done.stdout + done.stderr)[-600:])
         return
     recorded = json.loads(marker[-1][len("PLUGIN-LOG "):])
-    ok, detail = protocol.matches(recorded, decls, config["checks"], config["header"], [{"kind": "reader", "mode": case["mode"], "limit": None, "table": case["table"]}])
+    ok, detail = protocol.matches(recorded, decls, config["checks"], config["header"], [{"kind": "reader", "mode": case["mode"], "limit": case["cli"]["until"] if "cli" in case else None, "table": case["table"]}])
     if not ok:
-        part.fail("plugin|call-sequence-differs", case, detail, recorded[:40])
+        part.fail("plugin|call-sequence-differs%s" % (":command-line --until %s" % case["cli"]["until"] if "cli" in case else ""), case, detail, recorded[:40])
 
 
 def plugins(item):
@@ -391,6 +415,12 @@ def run(ctx):
         for table in tables[: (2 if quick else 3)]:
             for mode in ("yield", "raise") if not quick else ("yield",):
                 plugin_cases.append({"config": config, "table": table, "mode": mode})
+    # the command line with --plugins and --until: rows behind the limit cause no calls
+    for until in (None, 0, 1, 2, 3, 4, 9):
+        plugin_cases.append({"config": dict(config, preset="delimited"), "table": tables[0], "mode": "raise", "cli": {"until": until}})
+    # folder names holding characters that mean something to glob patterns or shells
+    for folder in ("plug[1]", "plug ins", "plug*in?", "[plugins]"):
+        plugin_cases.append({"config": dict(config, preset="delimited"), "table": tables[1], "mode": "yield", "folder": folder})
     ctx.pmap(MOD, "plugins", [[c] for c in plugin_cases], label="C20 plugins")
     ctx.bound = {"configurations": len(items), "fields": "1..3 recording fields (empty flag, length / width, allowed characters varied)", "checks": "0..3 recording checks (accepting, vetoing a row, failing at the end)",
                  "runs": "reader x 3 modes x limit {none,0..3}, reader with explicit close inside with, validate, abandoned reader, writer with double close; all pairs of runs on one CID over short tables",
